@@ -144,6 +144,19 @@ def run(ck: Check, repo: Repo) -> None:
             if (R.id not in reg_true and flag_implies(cond, True, isf0)) or (R.id not in reg_false and flag_implies(cond, False, isf0)):
                 ok0 = True
                 why0 = f"`{short(cond, 80)}` at line {node.lineno} keeps the loop body out of the terminal case"
+            else:
+                # statement form of `it = [] if done(first) else <window>`: on the terminal outcome the loop's iterable is bound to an empty sequence
+                used = {x.id for x in ast.walk(loop.ast.iter) if isinstance(x, ast.Name)}
+                for pol, reg in ((True, reg_true), (False, reg_false)):
+                    if not flag_implies(cond, pol, isf0):
+                        continue
+                    for name in used:
+                        reach = [d for d in cfg.defs_reaching(loop, name)]
+                        here = [d for d in reach if d.id in reg]
+                        vals = [cfg.value_of_def(d, name) for d in here]
+                        if here and all(v is not None and _is_empty_seq(v) for v in vals) and len(here) < len(reach):
+                            ok0 = True
+                            why0 = f"the iterable `{name}` is bound to an empty sequence when `{short(cond, 80)}` (line {node.lineno})"
         elif kind == "ifexp":
             feeds_loop = _feeds(cfg, node, loop)
             if feeds_loop and ((_is_empty_seq(extra.body) and flag_implies(cond, True, isf0)) or (_is_empty_seq(extra.orelse) and flag_implies(cond, False, isf0))):
